@@ -16,6 +16,10 @@ CLAIMS = {
    text="BinSeq.tla models the heap of sequences with one action per public entry point (constructor in six container forms over a token alphabet incl. 2, -1, 0.5 and letters, 2-D data, + with objects and literals in both orders, ~, every slice form with CPython semantics from PySlice.tla, integer index); TLC explores every call on every pool object (all strings <= 6 bits, <= 8 in thorough), checks Valid, the algebraic laws and AppendOnly (operands never change), and every distinct TLC state is replayed on the real class with write-protected operands (value, dtype, ndim, len/ones/zeros, exception verdict, aliasing). All 8190 strings <= 12 bits, long random strings, random depth-6 programs and >/< comparisons of integer-valued signals are executed on the real code and validated by TLC (BinSeqTrace).",
    note="trusted: TLC, JSON transport; ndarray literals only on the right of + (numpy dispatch makes ndarray+object element-wise); comparisons checked value-wise only when signal+noise and threshold are non-negative, as the statement says",
    technique="TLA+ heap state machine + TLC exhaustive model checking + replay of every TLC state on the class + TLC trace validation"),
+ "C01": dict(level="model_checking",
+   text="Signals.tla models the heap of electrical/optical signal objects (rows of Gaussian integers, optional noise) with one action per public entry point: +,-,* and their reflected forms with object operands and nine literal kinds under numpy broadcasting, every slice form (CPython semantics), int index, copy(n), domain transform; SignalsCtor.tla is the constructor decision table (12 signal forms x n_pol x noise forms). TLC checks the shape/noise contract, class/n_pol/length preservation, the total-field law, noise-iff, ValueError exactly on length mismatch, exact slicing and AppendOnly on every call over all ordered pairs of 6+7 representative objects (~80k states), and every distinct TLC state is replayed on the real classes with write-protected int/float/complex operands (values, layout, exception verdict, operand digests, np.shares_memory). Random depth-6 programs on lengths up to 4099 are validated event by event by TLC (SignalsTrace).",
+   note="trusted: TLC, JSON transport of integer sample values; products and transforms are constrained in shape/class/noise presence only (as the statement); operands of different polarisation counts and a length-1 left operand with a longer right operand are not constrained; ndarray/numpy-scalar operands only on the right",
+   technique="TLA+ heap state machine + TLC exhaustive model checking + replay of every TLC state + TLC trace validation of random programs"),
 }
 
 
